@@ -63,6 +63,14 @@ def declaredPhylip (s : List Byte) : Option (Int × Int) :=
     | none => none
     | some (l, _) => some (n, l)
 
+/-- number of rows of a result against a declared count: equal when no duplicate policy drops rows
+(`dropsRows = false`, IGNORE_NONE), at most the declared count otherwise -/
+def rowsOk (dropsRows : Bool) (n d : Int) : Bool := if dropsRows then decide (n ≤ d) else n == d
+
+/-- nothing but blanks up to the first NUL (NUL is goalign's in-band end-of-input marker: the lexers return rune 0
+at EOF) -/
+def blankToNul (bs : List Byte) : Bool := (bs.takeWhile (· != 0)).all isBlank
+
 def lower (b : Byte) : Byte := if 65 ≤ b && b ≤ 90 then b + 32 else b
 
 /-- remove `[...]` comments (naively, unnested) -/
@@ -121,9 +129,15 @@ def nexusDims : List (List Byte) → Option (List Byte) → List Int × List Int
         (keyValues [110, 116, 97, 120] rest 32 ++ r.1, keyValues [110, 99, 104, 97, 114] rest 32 ++ r.2)
       else r
 
+/-- the file after its `#NEXUS` word (which is not followed by a `;`: without this the first command would be
+`#NEXUS begin data` and the DATA block would go unnoticed) -/
+def afterNexusWord (s : List Byte) : List Byte :=
+  let t := s.dropWhile isBlank
+  if isPrefix [35, 110, 101, 120, 117, 115] (t.map lower) then t.drop 6 else s
+
 /-- Nexus: `ntax` / `nchar` of the DATA block's `dimensions` command, when every declaration agrees -/
 def declaredNexus (s : List Byte) : Option Int × Option Int :=
-  let d := nexusDims (splitCommands (stripComments s false) []) none
+  let d := nexusDims (splitCommands (afterNexusWord (stripComments s false)) []) none
   (allSame d.1, allSame d.2)
 
 /-! ### C02: representable alignments -/
